@@ -3,6 +3,7 @@
 package cache
 
 import (
+	"bytes"
 	"slices"
 	"strconv"
 	"strings"
@@ -162,7 +163,15 @@ func New(config ...Config) fiber.Handler {
 						c.Response().Header.SetBytesV(fiber.HeaderContentEncoding, e.cencoding)
 					}
 					for k, v := range e.headers {
-						c.Response().Header.SetBytesV(k, v)
+						// the values of a repeated header are stored in one entry, one per line
+						if bytes.IndexByte(v, '\n') < 0 {
+							c.Response().Header.SetBytesV(k, v)
+							continue
+						}
+						c.Response().Header.Del(k)
+						for _, line := range bytes.Split(v, []byte{'\n'}) {
+							c.Response().Header.AddBytesV(k, line)
+						}
 					}
 					// Set Cache-Control header if enabled
 					if cfg.CacheControl {
@@ -236,7 +245,13 @@ func New(config ...Config) fiber.Handler {
 					// create real copy
 					keyS := string(key)
 					if _, ok := ignoreHeaders[keyS]; !ok {
-						e.headers[keyS] = utils.CopyBytes(value)
+						if prev, repeated := e.headers[keyS]; repeated {
+							// a header sent several times (Set-Cookie, ...): keep every value,
+							// one per line - a header value cannot contain a line feed
+							e.headers[keyS] = append(append(prev, '\n'), value...)
+						} else {
+							e.headers[keyS] = utils.CopyBytes(value)
+						}
 					}
 				},
 			)
